@@ -40,7 +40,9 @@ const time_t kRealClockFloor = 1577836800;     // 2020-01-01: an mtime above thi
 std::string g_prop;
 bool wants(const char *tag) { return g_prop == "ALL" || g_prop == tag; }
 
-std::string dayOf(long long ms)
+// The calendar day of an instant: in the process' time zone (what a user calls the day, and what QDate::currentDate() and
+// LogMessage::time() report) and in UTC. The zone is part of the generated configuration (setZone); computed with libc, not Qt.
+std::string dayUtc(long long ms)
 {
     time_t t = time_t(ms / 1000);
     struct tm tm;
@@ -49,10 +51,46 @@ std::string dayOf(long long ms)
     strftime(b, sizeof b, "%Y-%m-%d", &tm);
     return b;
 }
+std::string dayOf(long long ms)
+{
+    time_t t = time_t(ms / 1000);
+    struct tm tm;
+    localtime_r(&t, &tm);
+    char b[16];
+    strftime(b, sizeof b, "%Y-%m-%d", &tm);
+    return b;
+}
+void setZone(const std::string &tz)
+{
+    setenv("TZ", tz.empty() ? "UTC" : tz.c_str(), 1);
+    tzset();
+}
+// milliseconds from `ms` to the next local midnight (DST days have 23 or 25 hours, Lord Howe moves by 30 minutes)
+long long msToNextLocalMidnight(long long ms)
+{
+    time_t t = time_t(ms / 1000);
+    struct tm tm;
+    localtime_r(&t, &tm);
+    tm.tm_mday += 1; tm.tm_hour = 0; tm.tm_min = 0; tm.tm_sec = 0; tm.tm_isdst = -1;
+    time_t m = mktime(&tm);
+    long long d = (long long)m * 1000 - ms;
+    if (d <= 0 || d > 26 * 3600000LL) d = kDayMs - ms % kDayMs; // zones that skip a whole day (none in the menu): fall back to UTC
+    return d;
+}
+// zones: UTC three times (the plain case), far east/west of it, half-hour offsets, DST zones; starts: an ordinary day, the days of the
+// DST switches of the northern and southern zones in the menu, a year boundary, a leap day
+const char *kZones[] = { "UTC", "UTC", "UTC", "Asia/Tokyo", "America/Los_Angeles", "Pacific/Kiritimati", "Pacific/Pago_Pago", "Asia/Kolkata",
+                         "Europe/Berlin", "Australia/Lord_Howe", "America/St_Johns" };
+const long long kStartDays[] = { 0, 0, 0, 0, -68 /* 2015-03-08 US DST starts */, -47 /* 2015-03-29 EU DST starts */, 170 /* 2015-11-01 US DST ends */,
+                                 163 /* 2015-10-25 EU DST ends */, 142 /* 2015-10-04 Lord Howe DST starts */, 230 /* 2015-12-31 */, 290 /* 2016-02-29 */ };
 
 // ------------------------------------------------------------------------------ generation
 // ".app.log": a hidden file (dot file in a home directory) - directory listings that skip hidden entries would not see its rotated files
-const char *kNames[] = { "app.log", "app.log", "app.log", "applog", "a+b.log", "app.v1.log", "app (1).log", "x.y.txt", ".app.log" };
+// names with characters that are special to a regular expression AND names with characters special to a glob / QDir name filter
+// ("srv[1].log": a character class; "open[.log": an unterminated one; '*', '?', '{', '\\'), a name outside ASCII
+const char *kNames[] = { "app.log", "app.log", "app.log", "applog", "a+b.log", "app.v1.log", "app (1).log", "x.y.txt", ".app.log",
+                         "srv[1].log", "open[.log", "a*b?.log", "app.{x}.log", "a\\d.log", "\xc3\xa9t\xc3\xa9.log", "app.log", "app.log" };
+const int kNameCount = int(sizeof kNames / sizeof kNames[0]);
 
 QString uniqueText(int idx, int bytes, int flavour)
 {
@@ -65,8 +103,11 @@ QString uniqueText(int idx, int bytes, int flavour)
         int room = bytes - s.toUtf8().size();
         if (flavour == 1 && room >= 2) s += QChar(0x00e9);
         else if (flavour == 2 && room >= 3) s += QChar(0x65e5);
+        else if (flavour == 8 && room >= 3) s += QChar(idx % 2 ? 0xff21 : 0xfffd);                 // three bytes, ABOVE the surrogate range (U+E000..U+FFFF)
         else if (flavour == 3 && room >= 4) { s += QChar(QChar::highSurrogate(0x1f600)); s += QChar(QChar::lowSurrogate(0x1f600)); }
         else if (flavour == 4 && room >= 1 && s.size() > 2) s += QChar('\n');
+        else if (flavour == 6 && room >= 1 && s.size() > 2) s += QChar(bytes % 2 ? '\r' : '\t');   // carriage returns (progress lines, CRLF sources)
+        else if (flavour == 7 && room >= 2 && s.size() > 2) { s += QChar('\r'); s += QChar('\n'); }
         else s += QChar('.');
     }
     return s;
@@ -94,12 +135,16 @@ QJsonObject generate()
     cfg["startup"] = startup;
     cfg["daily"] = daily;
     cfg["compress"] = compress;
-    cfg["name"] = kNames[pick(0, 8)];
+    cfg["name"] = QString::fromUtf8(kNames[pick(0, kNameCount - 1)]);
     static const int grans[] = { 0, 0, 1, 1000, 2000 };
     cfg["gran"] = grans[pick(0, 4)];
-    long long start = kEpoch0 + (long long)pick(0, 86399) * 1000 + pick(0, 999);
-    if (chance(20)) start = kEpoch0 + kDayMs - pick(1, 3000); // just before midnight
-    if (longRun) start = kEpoch0 + 3600000; // early in the day: the whole run stays on one date
+    const std::string tz = kZones[pick(0, 10)];
+    cfg["tz"] = QString::fromStdString(tz);
+    setZone(tz);
+    const long long day0 = kEpoch0 + kStartDays[pick(0, 10)] * kDayMs;
+    long long start = day0 + (long long)pick(0, 86399) * 1000 + pick(0, 999);
+    if (chance(20)) { start = day0 + 43200000; start += msToNextLocalMidnight(start) - pick(1, 3000); } // just before (local) midnight
+    if (longRun) { start = day0 + 43200000; start += msToNextLocalMidnight(start) + 3600000; } // early in the (local) day: the whole run stays on one date
     cfg["start"] = QString::number(start);
 
     QJsonObject c;
@@ -136,7 +181,7 @@ QJsonObject generate()
                 else if (r < 7 && L > 0) len = L + pick(1, 20);               // over-limit record
                 else len = pick(1, 40);
                 o["o"] = "w";
-                o["text"] = strToJson(uniqueText(widx, len, pick(0, 5)));
+                o["text"] = strToJson(uniqueText(widx, len, pick(0, 8)));
                 o["flush"] = true; // every write is observed: the retention/loss bookkeeping needs the file state after each one
             }
             widx++;
@@ -145,7 +190,8 @@ QJsonObject generate()
             int r = pick(0, 9);
             int dayBias = prop == "C09" ? 5 : 3;
             if (r < 10 - dayBias - 2) d = pick(2, 5000);
-            else if (r < 10 - 2) { long long into = now % kDayMs; d = kDayMs - into + pick(-3, 3000); if (d < 2) d = 2; } // to around midnight
+            else if (r < 10 - 2) { d = msToNextLocalMidnight(now) + pick(-3, 3000); if (d < 2) d = 2; } // to around (local) midnight
+            else if (r < 10 - 1 && tz != "UTC" && chance(50)) { d = kDayMs - now % kDayMs + pick(-3, 3000); if (d < 2) d = 2; } // to around UTC midnight: no day change for the user
             else d = (long long)pick(1, 40) * kDayMs + pick(0, 5000);
             o["o"] = "adv";
             o["ms"] = QString::number(d);
@@ -219,7 +265,8 @@ void onUnlink(const char *path)
 struct Rec
 {
     std::string bytes; // record + "\n"
-    std::string day;   // day of the message
+    std::string day;   // day of the message in the process' time zone
+    std::string dayU;  // ... and in UTC
 };
 
 struct Violation
@@ -253,6 +300,11 @@ struct World
     bool sawCompressedBig8k = false, sawCompressedBig64k = false, incompressible = false, emptyLines = false, overLimitRecord = false;
     std::string lastWriteDay;
     long long lastRotationStamp = -1;
+    // "calendar day": the property does not say in which zone. A sink that keeps LOCAL days apart and one that keeps UTC days apart both
+    // satisfy it, as long as it is the same reading for the whole history (a name dated by one clock over records split by the other is
+    // neither). Both readings start alive; a file that contradicts one kills it for good; C09 is violated when none is left.
+    bool localAlive = true, utcAlive = true;
+    bool zoneMatters = false; // some record's local and UTC day differ
 
     World(const std::string &d, const std::string &fn) : dir(d), fileName(fn), scheme(fn) { off.push_back(0); }
 
@@ -263,6 +315,7 @@ struct World
         r.bytes.assign(u.constData(), size_t(u.size()));
         r.bytes.push_back('\n');
         r.day = dayOf(nowMs);
+        r.dayU = dayUtc(nowMs);
         all += r.bytes;
         off.push_back((long long)all.size());
         recs.push_back(r);
@@ -492,16 +545,29 @@ bool check(World &w, std::vector<FileSnap> &files, bool afterWrite, Violation &v
 
     // ---- C09: days apart, names dated, names never reused, indices increase ----
     if (w.daily && w.N != 1) {
-        auto dayCheck = [&](FileSnap *f) -> bool {
-            if (f->b <= f->a) return true;
+        // reading: 0 = local days, 1 = UTC days; returns "" when the file agrees with the reading
+        auto dayCheck = [&](FileSnap *f, int reading) -> std::string {
+            if (f->b <= f->a) return "";
             std::set<std::string> days;
-            for (long long i = f->a; i < f->b; i++) days.insert(w.recs[size_t(i)].day);
-            if (days.size() > 1) { v = { "C09", "file '" + f->name + "' holds records of " + *days.begin() + " and " + *days.rbegin() }; return false; }
-            if (f->rotated && *days.begin() != f->date) { v = { "C09", "rotated file '" + f->name + "' holds records written on " + *days.begin() }; return false; }
-            return true;
+            for (long long i = f->a; i < f->b; i++) days.insert(reading == 0 ? w.recs[size_t(i)].day : w.recs[size_t(i)].dayU);
+            if (days.size() > 1) return "file '" + f->name + "' holds records of " + *days.begin() + " and " + *days.rbegin();
+            if (f->rotated && *days.begin() != f->date) return "rotated file '" + f->name + "' holds records written on " + *days.begin();
+            return "";
         };
-        for (auto *f : rot) if (!dayCheck(f)) return false;
-        if (active && !dayCheck(active)) return false;
+        std::string whyLocal, whyUtc;
+        for (int reading = 0; reading < 2; reading++) {
+            std::string &why = reading == 0 ? whyLocal : whyUtc;
+            for (auto *f : rot) if (why.empty()) why = dayCheck(f, reading);
+            if (active && why.empty()) why = dayCheck(active, reading);
+        }
+        if (!whyLocal.empty()) w.localAlive = false;
+        if (!whyUtc.empty()) w.utcAlive = false;
+        if (!w.localAlive && !w.utcAlive) {
+            std::string what = !whyLocal.empty() ? whyLocal : whyUtc;
+            if (whyLocal != whyUtc) what += " (days in the zone " + std::string(envOr("TZ", "UTC")) + "; the history fits UTC days no better" + (whyUtc.empty() ? ": an earlier file contradicted them" : ": " + whyUtc) + ")";
+            v = { "C09", what };
+            return false;
+        }
     }
     for (auto *f : rot) {
         const std::string key = f->date + "." + std::to_string(f->index);
@@ -553,8 +619,13 @@ const char *plantName(const World &w, int which, std::string &out)
     case 7: out = b + "." + d + ".1" + dot + ".gz.tmp"; break;
     case 8: out = "other." + d + ".1" + dot; break;         // another log's rotated file
     case 9: {                                                // what an unescaped base name would match
-        std::string m = b;
-        for (auto &ch : m) if (ch == '+') ch = 'a'; else if (ch == '.') ch = 'X'; else if (ch == '(' || ch == ')') ch = '_';
+        std::string m;
+        for (char ch : b) {
+            if (ch == '+') m += 'a'; else if (ch == '.') m += 'X'; else if (ch == '(' || ch == ')') m += '_';
+            else if (ch == '[' || ch == ']' || ch == '{' || ch == '}' || ch == '\\') continue;    // "srv[1]" as a pattern matches "srv1"
+            else if (ch == '*' || ch == '?') m += "Q";                                                // "a*b?" as a glob matches "aQbQ"
+            else m += ch;
+        }
         if (m == b) m = b + b;
         out = m + "." + d + ".1" + dot;
         break;
@@ -581,6 +652,8 @@ std::string run(const QJsonObject &c)
     w.compress = cfg["compress"].toBool();
     w.gran = cfg["gran"].toInt();
     long long now = cfg["start"].toString().toLongLong();
+    const std::string tz = cfg.contains("tz") ? cfg["tz"].toString().toStdString() : std::string("UTC");
+    setZone(tz);
     verif_clock_enable(true);
     verif_clock_set(now);
 
@@ -625,6 +698,7 @@ std::string run(const QJsonObject &c)
             LogMessage m(QtInfoMsg, ctx, text);
             sink->send(m);
             w.addRecord(text, now);
+            if (w.recs.back().day != w.recs.back().dayU) w.zoneMatters = true;
             const bool flush = true;
             if (flush) { sink->flush(); pendingUnflushed = false; wasWrite = true; }
             else { pendingUnflushed = true; observed = false; }
@@ -735,7 +809,7 @@ std::string run(const QJsonObject &c)
 
     if (failed && !otherProp)
         return "[" + viol.tags + "] " + viol.what + "  cfg L=" + std::to_string(w.L) + " N=" + std::to_string(w.N) + " startup=" + std::to_string(w.startup)
-                + " daily=" + std::to_string(w.daily) + " compress=" + std::to_string(w.compress) + " file=" + w.fileName;
+                + " daily=" + std::to_string(w.daily) + " compress=" + std::to_string(w.compress) + " file=" + w.fileName + " TZ=" + tz;
     if (failed) { count("cases_ended_by_another_propertys_invariant"); }
 
     // ---- statistics & non-triviality per property ----
@@ -753,6 +827,9 @@ std::string run(const QJsonObject &c)
     cls("restart_after_day_change", w.restartAfterDayChange);
     cls("removal_before_later_rotation_same_date", w.removalBeforeLaterRotationSameDate);
     cls("foreign_files_planted", !w.planted.empty());
+    cls("zone_other_than_UTC", tz != "UTC");
+    cls("record_whose_local_and_UTC_day_differ", w.zoneMatters);
+    cls("daily_and_local_and_UTC_day_differ_and_day_change", w.daily && w.zoneMatters && w.dayChangesWithData > 0);
     cls("interrupted_compression_twin_present_at_a_later_rotation", w.twinsSeenByRetention > 0);
     cls("metachar_file_name", w.fileName != "app.log" && w.fileName != "applog");
     cls("gz_content>8KiB", w.sawCompressedBig8k);
